@@ -47,6 +47,18 @@ def envCount (b : List UInt8) : Option Nat :=
   | some (_, cs, _) => if isArrayHead b then some cs.length else none
   | none => none
 
+/-- The bytes the transaction reports once the envelope's stored bytes are gone but body
+    and witness set keep theirs (`MarshalCBOR` re-assembly: `ReassembleTransactionCbor` in
+    Alonzo..Conway, `cbor.Encode([]any{Body, WitnessSet, aux})` elsewhere): a canonical
+    one-byte array header followed by the original bytes of the components. -/
+def reassemble (b : List UInt8) : Option (List UInt8) :=
+  match GV.Cbor.childSpans b with
+  | some (h, cs, _) =>
+    if cs.length < 24 then
+      some (UInt8.ofNat (0x80 + cs.length) :: (b.drop h).take ((cs.map (·.2)).sum))
+    else none
+  | none => none
+
 structure Tx where
   /-- `tx.Type()`: Shelley 1 … Dijkstra 7 -/
   eraType : Nat
